@@ -12,12 +12,29 @@ def kinds(s):
     k = [1 if c == 'm' else 0 for c in s] + [0] * (10 - len(s))
     return "KINDS={%s}" % ",".join(map(str, k))
 
-def tree_inst(shape, alg="KSI_HASHALG_SHA1", refuse=-1, maxmode=0, label=None):
+def tree_inst(shape, alg="KSI_HASHALG_SHA1", refuse=-1, maxmode=0, label=None, stop=False, levels=None, maxval=None, close_overflow=None, wit=None):
     """shape: string over h/m, one char per ADD (including the refused one)"""
     n = len(shape) - (1 if refuse >= 0 else 0)
+    if maxval is not None:
+        maxmode = 3
     d = ["NLEAVES=%d" % n, kinds(shape), "ALG=%s" % alg, "REFUSE=(%d)" % refuse, "MAXMODE=%d" % maxmode]
-    if maxmode != 2 and bin(n).count("1") >= 2:
+    if maxval is not None:
+        d.append("MAXVAL=%d" % maxval)
+    if stop:
+        d.append("STOP_AFTER_REFUSAL=1")
+    if levels is not None:
+        d.append("LEVELS={%s}" % ",".join(map(str, list(levels) + [0] * (10 - len(levels)))))
+    if close_overflow is None:
+        close_overflow = (levels is None and not stop and maxmode not in (2, 3) and bin(n).count("1") >= 2)
+    if close_overflow:
         d.append("WIT_CLOSE_OVERFLOW=1")
+    if refuse >= 0:
+        if wit is None:   # symbolic levels: a limit refusal needs a limit, a carry refusal an occupied slot 0 and no limit <= 255
+            wit = (["LIMIT"] if maxmode in (0, 2) else []) + (["CARRY"] if maxmode in (0, 1) and refuse % 2 == 1 else [])
+        for w in wit:
+            d.append("WIT_REFUSE_%s=1" % w)
+        if not stop and not close_overflow:
+            d.append("WIT_CLOSE_OK=1")
     lab = label or ("n%d_%s%s%s%s" % (n, shape, "_s256" if "256" in alg else "", "_r%d" % refuse if refuse >= 0 else "", "_m%d" % maxmode if maxmode else ""))
     return {"label": lab, "defines": d}
 
@@ -25,14 +42,21 @@ h1_quick = [tree_inst("h"), tree_inst("hh"), tree_inst("mh"), tree_inst("hhh"), 
             tree_inst("hhhh"), tree_inst("hhmh", alg="KSI_HASHALG_SHA2_256"), tree_inst("hhhhh")]
 h1_thorough = h1_quick + [tree_inst("hmhhm"), tree_inst("hhhhhh"), tree_inst("hhhhhhh"), tree_inst("hhhhhhhh"),
                           tree_inst("hhhhhh", alg="KSI_HASHALG_SHA2_256"), tree_inst("mhmhmhmh")]
-# refusal: position r of the refused add; odd r with no limit = carry overflow (r = 3: carry depth 0 or 1)
-h2_quick = [tree_inst("hh", refuse=1, maxmode=1), tree_inst("hhh", refuse=2, maxmode=2), tree_inst("hhhh", refuse=3, maxmode=1),
-            tree_inst("hhmh", refuse=1, maxmode=0), tree_inst("hhhh", refuse=3, maxmode=2)]
-h2_thorough = h2_quick + [tree_inst("hhhhhh", refuse=5, maxmode=1), tree_inst("hhhhhh", refuse=3, maxmode=0), tree_inst("hhhhhhhh", refuse=7, maxmode=1)]
-
+# H-2a: symbolic levels, stop after the refused add.  Odd position + no limit = carry overflow (position 3: carry depth 0 or 1)
+h2a_quick = [tree_inst("hh", refuse=1, maxmode=1, stop=True), tree_inst("mh", refuse=1, maxmode=0, stop=True), tree_inst("hhh", refuse=2, maxmode=2, stop=True),
+             tree_inst("hhhh", refuse=3, maxmode=1, stop=True), tree_inst("hhmh", refuse=3, maxmode=0, stop=True)]
+h2a_thorough = h2a_quick + [tree_inst("hhhhh", refuse=4, maxmode=2, stop=True), tree_inst("hhhhhh", refuse=5, maxmode=1, stop=True),
+                            tree_inst("hhhhhhhh", refuse=7, maxmode=1, stop=True)]
+# H-2b: concrete levels; what happens after the refusal
+h2b_quick = [tree_inst("hhh", refuse=1, maxmode=1, levels=[0, 255, 0], wit=["CARRY"], label="l_0_255r_0"),
+             tree_inst("hhhh", refuse=3, maxmode=1, levels=[254, 0, 0, 0], close_overflow=True, wit=["CARRY"], label="l_254_0_0_0r_carry1"),
+             tree_inst("hhhhh", refuse=4, maxval=2, levels=[0, 0, 0, 0, 0], wit=["LIMIT"], label="l_00000r_max2"),
+             tree_inst("hmhh", refuse=2, maxval=3, levels=[0, 0, 7, 0], wit=["LIMIT"], label="l_hm_7r_h_max3"),
+             tree_inst("hhhhhhhh", refuse=7, maxmode=1, levels=[253, 0, 0, 0, 0, 0, 0, 0], close_overflow=True, wit=["CARRY"], label="l_253_0x6_0r_carry2")]
+h2b_thorough = h2b_quick + [tree_inst("hhhhhh", refuse=3, maxmode=1, levels=[3, 2, 255, 255, 1, 0], close_overflow=False, wit=["CARRY"], label="l_3_2_255_255r_1_0")]
 common = {"src": "h1_tree.c", "env": ENV, "tus": TUS, "unwind": 6,
           "unwindset": ["KSI_TreeBuilder_close.0:257", "calculateHighestLevel.0:257"],
-          "cbmc_flags": FS, "restrict_fp": RESTRICT, "object_bits": 12, "mem_gb": 8, "timeout": 600, "solver": "kissat",
+          "cbmc_flags": FS, "restrict_fp": RESTRICT, "max_replays": 2, "object_bits": 12, "mem_gb": 8, "timeout": 600, "solver": "kissat",
           "functions": ["KSI_TreeBuilder_new", "KSI_TreeBuilder_addDataHash", "KSI_TreeBuilder_addMetaData", "addLeaf", "processAndInsertNode",
                         "insertNode", "KSI_TreeNode_join", "joinHashes", "KSI_DataHasher_addTreeNode", "KSI_TreeNode_new", "calculateHighestLevel",
                         "levelWithOverhead", "KSI_TreeBuilder_close", "KSI_TreeLeafHandle_getAggregationChain", "getHashChainLinks", "KSI_TreeNode_free"]}
@@ -45,8 +69,10 @@ plan = {
  "harnesses": [
   dict(common, name="h1_tree", global_defines=["HM_LOG_MAX=72", "HM_REC_MAX=8"],
        bound="", instances=h1_quick, thorough={"instances": h1_thorough, "timeout": 1800}),
-  dict(common, name="h2_refuse", global_defines=["HM_LOG_MAX=72", "HM_REC_MAX=8"],
-       bound="", instances=h2_quick, thorough={"instances": h2_thorough, "timeout": 1800}),
+  dict(common, name="h2a_refuse", global_defines=["HM_LOG_MAX=72", "HM_REC_MAX=8"],
+       bound="", instances=h2a_quick, thorough={"instances": h2a_thorough, "timeout": 1800}),
+  dict(common, name="h2b_after", global_defines=["HM_LOG_MAX=72", "HM_REC_MAX=8"],
+       bound="", instances=h2b_quick, thorough={"instances": h2b_thorough, "timeout": 1800}),
  ]}
 json.dump(plan, open(os.path.join(HERE, "plan.json"), "w"), indent=1)
 print("wrote plan.json:", sum(len(h.get("instances", [1])) for h in plan["harnesses"]), "quick instances")
